@@ -252,6 +252,8 @@ def rule_attach(ctx: Ctx):
                     if isinstance(f, ast.Attribute) and show(f.value) == "self._listeners" and f.attr in ("update", "setdefault"):
                         a0 = expand1(e.term.args[-1], p.events) if e.term.args else None
                         v = a0.value if isinstance(a0, ast.DictComp) else a0
+                        if isinstance(a0, ast.Call) and show(a0.func) == "dict.fromkeys":
+                            v = a0.args[1] if len(a0.args) > 1 else ast.Constant(value=None)
                         marks.setdefault(fn_.name, set()).add(xshow(v, p.events) if v is not None else "?")
                 for e in p.of("store"):
                     if e.x.get("subscript") and show(e.term.value) == "self._listeners":
